@@ -293,7 +293,21 @@ func CheckC14(opt C14Options) int {
 			c.units = append(c.units, mk(mo))
 			c.units = append(c.units, mk(RandomPlan(rs, 0).SchedOnly()))
 			for len(c.units) < k {
-				c.units = append(c.units, mk(RandomPlan(rs, fine)))
+				pl := RandomPlan(rs, fine)
+				manyParserDiags := false
+				for _, src := range proj.Files {
+					if strings.Contains(src, "let everywhere") {
+						manyParserDiags = true
+					}
+				}
+				if fl == "errors" && (manyParserDiags || rs.Chance(2, 5)) {
+					// diagnostics are appended by concurrently running parsers: give the
+					// statement-level interleavings (lost or reordered appends) a real chance
+					pl.Fine = true
+					pl.FineProb = core.Pick(rs, []int{1, 1, 2, 4})
+					pl.Strategy = core.Pick(rs, []string{"random", "random", "sticky50"})
+				}
+				c.units = append(c.units, mk(pl))
 			}
 			cases = append(cases, c)
 		}
